@@ -713,6 +713,87 @@ func (f *Fn) LocalDef(id *ast.Ident) ast.Expr {
 	return rhs
 }
 
+// Expand returns e with every local variable that has an unambiguous definition
+// replaced by that definition (recursively, bounded) and no-op conversions
+// removed: the value expression in terms of parameters, loop variables and
+// fields. New nodes are created only on the path to a replacement.
+func (f *Fn) Expand(e ast.Expr) ast.Expr { return f.expand(e, 0) }
+
+func (f *Fn) expand(e ast.Expr, depth int) ast.Expr {
+	if e == nil || depth > 8 {
+		return e
+	}
+	switch x := e.(type) {
+	case *ast.ParenExpr:
+		return f.expand(x.X, depth)
+	case *ast.Ident:
+		if d := f.LocalDef(x); d != nil {
+			return f.expand(d, depth+1)
+		}
+		return x
+	case *ast.CallExpr:
+		if len(x.Args) == 1 {
+			if tv, ok := f.Info().Types[x.Fun]; ok && tv.IsType() {
+				if at, ok := f.Info().Types[x.Args[0]]; ok && at.Type != nil && types.Identical(at.Type, tv.Type) {
+					return f.expand(x.Args[0], depth)
+				}
+			}
+		}
+		n := *x
+		n.Args = make([]ast.Expr, len(x.Args))
+		for i, a := range x.Args {
+			n.Args[i] = f.expand(a, depth)
+		}
+		if sel, ok := x.Fun.(*ast.SelectorExpr); ok {
+			if _, isPkg := f.Info().Uses[rootIdent(sel.X)].(*types.PkgName); !isPkg {
+				ns := *sel
+				ns.X = f.expand(sel.X, depth)
+				n.Fun = &ns
+			}
+		}
+		return &n
+	case *ast.BinaryExpr:
+		n := *x
+		n.X, n.Y = f.expand(x.X, depth), f.expand(x.Y, depth)
+		return &n
+	case *ast.UnaryExpr:
+		n := *x
+		n.X = f.expand(x.X, depth)
+		return &n
+	case *ast.StarExpr:
+		n := *x
+		n.X = f.expand(x.X, depth)
+		return &n
+	case *ast.IndexExpr:
+		n := *x
+		n.X, n.Index = f.expand(x.X, depth), f.expand(x.Index, depth)
+		return &n
+	case *ast.SliceExpr:
+		n := *x
+		n.X = f.expand(x.X, depth)
+		if x.Low != nil {
+			n.Low = f.expand(x.Low, depth)
+		}
+		if x.High != nil {
+			n.High = f.expand(x.High, depth)
+		}
+		return &n
+	case *ast.SelectorExpr:
+		if _, isPkg := f.Info().Uses[rootIdent(x.X)].(*types.PkgName); isPkg {
+			return x
+		}
+		n := *x
+		n.X = f.expand(x.X, depth)
+		return &n
+	}
+	return e
+}
+
+func rootIdent(e ast.Expr) *ast.Ident {
+	id, _ := ast.Unparen(e).(*ast.Ident)
+	return id
+}
+
 // assignedInLit reports whether a function literal inside f assigns to v (the
 // reaching-definition search does not follow calls of closures).
 func (f *Fn) assignedInLit(v types.Object) bool {
@@ -948,11 +1029,23 @@ func (f *Fn) Denotes(e ast.Expr, o types.Object) bool {
 	if o == nil || e == nil {
 		return false
 	}
-	if f.ObjOf(e) == o {
-		return true
-	}
-	if r := f.Resolve(e); r != e && f.ObjOf(r) == o {
-		return true
+	// step by step through the temporaries: t := o resolves to o, which may itself have a definition
+	for i := 0; i < 6 && e != nil; i++ {
+		e = ast.Unparen(e)
+		if f.ObjOf(e) == o {
+			return true
+		}
+		if c, isCall := e.(*ast.CallExpr); isCall && len(c.Args) == 1 {
+			if tv, ok := f.Info().Types[c.Fun]; ok && tv.IsType() {
+				e = c.Args[0] // a conversion
+				continue
+			}
+		}
+		id, ok := e.(*ast.Ident)
+		if !ok {
+			return false
+		}
+		e = f.LocalDef(id)
 	}
 	return false
 }
